@@ -130,10 +130,11 @@ def _instances(ck, bench, rule, modname, fname, construct, what, cases, spec, un
                 continue
             if any(c._gates.get(l) is not g for l, g in before.items()) or c._outputs != ['own'] or c._inputs != names:
                 probs.append(f'{tag} changed pre-existing gates or the interface of the host circuit')
-            if exhaustive:
+            if exhaustive is True:
                 pairs = [(A, B) for A in range(1 << na) for B in (range(1 << nb) if not unary else (0,))]
             else:
-                pairs = samples(na, nb if not unary else 1, seed=na * 131 + nb)
+                # (False: the default sample; an integer: that many seeded random pairs on top of the corners)
+                pairs = samples(na, nb if not unary else 1, seed=na * 131 + nb, n_random=(exhaustive or 24))
                 if unary:
                     pairs = list(dict.fromkeys((a, 0) for a, _ in pairs))
                 sampled.append((na, nb))
@@ -165,7 +166,9 @@ def fold_multipliers(ck: Checker, rule: str, bench: NumBench | None = None):
     small = [(a, b, True) for a in (1, 2, 3, 4) for b in (1, 2, 3, 4) if a * b <= 12 or a == b]
     mid = [(5, 3, True), (3, 6, True)] if ck.tier == 'quick' else [(5, 3, True), (3, 6, True), (5, 5, True), (6, 4, True), (7, 3, True)]
     total = 0
-    for fname, extra in (('add_mul', mid), ('add_mul_alter', mid), ('add_mul_dadda', mid + [(9, 7, False)]), ('add_mul_wallace', mid + [(9, 7, False)]), ('add_mul_pow2_m1', mid + [(9, 7, False)])):
+    # very unequal widths: the reduction trees leave columns without a carry there (F34: the Wallace final stage went wrong from 2 x 11)
+    skinny = [(2, 11, 160), (11, 2, 60), (2, 13, 160), (3, 12, 60)] + ([(2, 20, 200), (3, 28, 200), (3, 30, 200), (28, 3, 60)] if ck.tier != 'quick' else [])
+    for fname, extra in (('add_mul', mid), ('add_mul_alter', mid), ('add_mul_dadda', mid + [(9, 7, False)] + skinny[:2]), ('add_mul_wallace', mid + [(9, 7, False)] + skinny), ('add_mul_pow2_m1', mid + [(9, 7, False)] + skinny[:2])):
         total += _instances(ck, bench, rule, MUL, fname, f'{fname} instantiated', f'{fname}: the returned bits decode to a * b', small + extra, mul_spec)
     # Karatsuba: below the threshold it delegates; at 18 and from 20 bits it recurses
     kar = [(2, 2, True), (3, 2, True), (4, 3, True), (18, 18, False), (20, 20, False), (21, 17, False)]
@@ -300,4 +303,115 @@ def fold_bit_counters(ck: Checker, rule: str, bench: NumBench | None = None):
         ck.check(not probs, rule, m, fn, f'{fname}: pairwise distinct levels and sum(out * 2^level) = sum(in * 2^weight) ({n_inst} weight vectors, every operand value)', '; '.join(probs[:3]), construct=f'{fname} instantiated')
     ck.notes['bit_counter_evaluations'] = total
     ck.assume('bit counters and weighted sums are instantiated for <= 8 operands / the listed weight vectors only')
+    return bench
+
+
+SUB = ARITH + '.subtraction'
+DIV = ARITH + '.div_mod'
+SQRT = ARITH + '.sqrt'
+
+
+def fold_sub_div_sqrt(ck: Checker, rule: str, bench: NumBench | None = None):
+    """Subtraction with comparison, division with remainder and integer square root at widths beyond the contract-based
+    folds of C09.FOLD, as they stand (no contracts), every operand value."""
+    import math
+    bench = bench or NumBench(ck.repo)
+    thorough = ck.tier != 'quick'
+    total = 0
+    # add_subtract_with_compare: unequal widths in both directions
+    sm = ck.repo.mod(SUB)
+    probs, n_inst = [], 0
+    for na, nb in [(4, 4), (5, 2), (2, 5), (1, 4)] + ([(6, 5), (3, 7)] if thorough else []):
+        for be in (False, True):
+            n_inst += 1
+            tag = f'add_subtract_with_compare(widths {na},{nb}, big_endian={be})'
+            try:
+                c, names = bench.host(na + nb)
+                la, lb = list(names[:na]), list(names[na:])
+                res, flag = bench.run(SUB, 'add_subtract_with_compare', c, la, lb, big_endian=be)
+            except InterpRaise as e:
+                probs.append(f'{tag} raises {e.exc_name}')
+                continue
+            w = max(na, nb)
+            if la != names[:na] or lb != names[na:]:
+                probs.append(f'{tag} modified the caller\'s operand lists')
+            if len(res) != w or any(r not in c._gates for r in list(res) + [flag]):
+                probs.append(f'{tag}: {len(res)} result bits / labels of missing gates')
+                continue
+            for A in range(1 << na):
+                for Bv in range(1 << nb):
+                    total += 1
+                    v = eval_all(c, dict(zip(names, bits_of(A, na, be) + bits_of(Bv, nb, be))))
+                    got, fl = num([v[r] for r in res], be), v[flag]
+                    if got != (A - Bv) % (1 << w) or fl != (A < Bv):
+                        probs.append(f'{tag}: {A} - {Bv} gives {got} with borrow flag {fl}')
+                        break
+                else:
+                    continue
+                break
+            if c._outputs != ['own'] or c._inputs != names:
+                probs.append(f'{tag} changed the interface of the host circuit')
+    ck.check(not probs, rule, sm, sm.func('add_subtract_with_compare'), f'add_subtract_with_compare: (a - b) mod 2^max(len) and a flag True exactly when a < b, unequal widths in both directions ({n_inst} instances, every operand value)',
+             '; '.join(probs[:3]), construct='add_subtract_with_compare instantiated')
+    # add_div_mod
+    dm = ck.repo.mod(DIV)
+    probs, n_inst = [], 0
+    for n in (4, 5) + ((6,) if thorough else ()):
+        for be in (False, True):
+            n_inst += 1
+            tag = f'add_div_mod(width {n}, big_endian={be})'
+            try:
+                c, names = bench.host(2 * n)
+                q, r = bench.run(DIV, 'add_div_mod', c, list(names[:n]), list(names[n:]), big_endian=be)
+            except InterpRaise as e:
+                probs.append(f'{tag} raises {e.exc_name}')
+                continue
+            if len(q) != n or len(r) != n or any(x not in c._gates for x in list(q) + list(r)):
+                probs.append(f'{tag}: result widths {len(q)},{len(r)} / labels of missing gates')
+                continue
+            bad = None
+            for A in range(1 << n):
+                for Bv in range(1 << n):
+                    total += 1
+                    v = eval_all(c, dict(zip(names, bits_of(A, n, be) + bits_of(Bv, n, be))))
+                    got = (num([v[x] for x in q], be), num([v[x] for x in r], be))
+                    want = (A // Bv, A % Bv) if Bv else (0, 0)
+                    if got != want:
+                        bad = f'{tag}: {A} divmod {Bv} gives {got}, expected {want}'
+                        break
+                if bad:
+                    break
+            if bad:
+                probs.append(bad)
+            if c._outputs != ['own'] or c._inputs != names:
+                probs.append(f'{tag} changed the interface of the host circuit')
+    ck.check(not probs, rule, dm, dm.func('add_div_mod'), f'add_div_mod: (a // b, a mod b), and (0, 0) for b = 0 ({n_inst} instances, every operand value)', '; '.join(probs[:3]), construct='add_div_mod instantiated')
+    # add_sqrt
+    qm = ck.repo.mod(SQRT)
+    probs, n_inst = [], 0
+    for n in (6, 7, 8, 9) + ((10, 11) if thorough else ()):
+        for be in (False, True):
+            n_inst += 1
+            tag = f'add_sqrt(width {n}, big_endian={be})'
+            try:
+                c, names = bench.host(n)
+                res = bench.run(SQRT, 'add_sqrt', c, list(names), big_endian=be)
+            except InterpRaise as e:
+                probs.append(f'{tag} raises {e.exc_name}')
+                continue
+            if len(res) != (n + 1) // 2 or any(x not in c._gates for x in res):
+                probs.append(f'{tag}: {len(res)} result bits / labels of missing gates')
+                continue
+            for X in range(1 << n):
+                total += 1
+                v = eval_all(c, dict(zip(names, bits_of(X, n, be))))
+                got = num([v[x] for x in res], be)
+                if got != math.isqrt(X):
+                    probs.append(f'{tag}: sqrt({X}) gives {got}')
+                    break
+            if c._outputs != ['own'] or c._inputs != names:
+                probs.append(f'{tag} changed the interface of the host circuit')
+    ck.check(not probs, rule, qm, qm.func('add_sqrt'), f'add_sqrt: floor(sqrt(x)) on ceil(n/2) bits ({n_inst} instances, every operand value)', '; '.join(probs[:3]), construct='add_sqrt instantiated')
+    ck.notes['sub_div_sqrt_evaluations'] = total
+    ck.assume('subtraction with comparison, division and square root are instantiated for the listed widths only')
     return bench
